@@ -132,13 +132,15 @@ def evloopNew (f : Sched) (t : Int) (mempool : Bool) (hints : Int) (nodeSize : N
         evloopInitExcept { e with list := .null } h
       | .ok (ll, true, h) => evloopInitSignal f hints { e with ll := ll } h
 
-/-- `muggle_evloop_delete` -/
-def evloopDelete (e : EvLoop) (h : Heap) : Except Err (EvLoop × Heap) := do
-  deref e.self
-  let (e, h) ← evloopDestroyBackend e h
-  let (e, h) ← evloopDestroyBase e h
-  let h ← free e.self h
-  pure ({}, h)
+/-- `muggle_evloop_delete`: `if (evloop) { backend destroy; base destroy; free }` -/
+def evloopDelete (e : EvLoop) (h : Heap) : Except Err (EvLoop × Heap) :=
+  if e.self = .null then .ok ({}, h)
+  else do
+    deref e.self
+    let (e, h) ← evloopDestroyBackend e h
+    let (e, h) ← evloopDestroyBase e h
+    let h ← free e.self h
+    pure ({}, h)
 
 /-- `muggle_evloop_add_ctx` from the loop's own thread: list node, then backend registration;
 the poll backend refuses when its array is full and the node is removed again -/
@@ -198,9 +200,12 @@ def alogLog (f : Sched) (c : Chan) (h : Heap) : Except Err Heap :=
       let h ← free p h
       free m h
 
-/-- `muggle_async_logger_destroy`: NULL sentinel, join, channel destroy -/
-def alogDestroy (c : Chan) (h : Heap) : Except Err (Chan × Heap) := do
-  deref c.blocks
-  chanDestroy c h
+/-- `muggle_async_logger_destroy`: nothing to do when the channel was never built (fix
+C18-async-logger-destroy); else NULL sentinel, join, channel destroy -/
+def alogDestroy (c : Chan) (h : Heap) : Except Err (Chan × Heap) :=
+  if c.blocks = .null then .ok (c, h)
+  else do
+    deref c.blocks
+    chanDestroy c h
 
 end MgModel.C18
